@@ -10,7 +10,7 @@ PROP = {'engine': 'srv',
                   'clause patterns in the reflector model are the fragment {literal, \\\\c, *, ?, top-level comma}; the full pattern syntax is property C15; '
                   'glibc regcomp/regexec trusted as there',
                   'content filters in the reflector engine are int32 comparisons on one field; the full filter language is property C14'],
- 'assumptions': ['pattern laws from C15', 'patterns with >= 3 clauses for exactly-once (F27 otherwise)'],
+ 'assumptions': ['pattern laws from C15', 'patterns with >= 2 clauses for exactly-once (a 1-clause pattern matches host nodes, which belong to no session)'],
  'rule': 'generated histories over 2-5 sessions on two hosts: attach/detach, SETDATA (incl. ADDTOINDEX), REMOVEDATA with wildcards, SUBSCRIBE with/without '
          'int32 filters, re-filter, unsubscribe, reflect-to-self, max-items, default route, client-to-client Messages with 0-2 key patterns, '
          'INSERTORDEREDDATA, REORDERDATA, BATCH, PING, FindMatchingNodes; every 4th case is the hostile stream (arbitrary structurally valid Messages with '
@@ -26,11 +26,11 @@ TEXT = {'design_ref': 'DESIGN.md section 4, C05',
  'text': 'Proved in Lean for every tree, every pattern set, both filter modes and every root depth: the literal traversal (hash-lookup fast path, comma lists, '
          'child iteration, known-entry short cut, multi-pattern re-check, alreadyDid set) visits exactly the nodes whose full path matches when tested one by '
          'one, each once (`traversal_eq_bruteforce`); with the delivery callback exactly one visit is recorded in each session that owns a matching node and '
-         'none elsewhere (`route_sessions_exact`, `route_once_per_session*`) when every pattern has at least 3 clauses.  Tie: FindMatchingNodes and '
+         'none elsewhere (`route_sessions_exact`, `route_once_per_session*`) when every pattern has at least 2 clauses (a pattern that stops at a host node selects no session).  Tie: FindMatchingNodes and '
          "client-to-client routing on a real server agree with the model (visit order included) and with the harness's brute-force recipient/visit sets; the "
          'delivered sender field always names the true sender.',
  'note': 'Hypotheses of the traversal theorem: clause counts equal group keys, sibling names distinct, and the two pattern-layer laws (a "unique" pattern '
          'matches only its unescaped text; a unique-value list matches exactly its elements) — provided by C15 for documented patterns; false for a dangling '
-         'final backslash and for lists with an empty element.  Open known finding F27: a key set holding a session-level pattern together with a deeper one '
-         "delivers twice (the theorem's 3-clause bound is tight).  FIFO per sender/receiver pair and the fallback/default-route rules are covered by "
+         'final backslash and for lists with an empty element.  Finding F27 (a key set holding a session-level pattern together with a deeper one delivered twice; the former 3-clause hypothesis) is repaired in the code '
+         "(fa53600) and the theorems were re-proved for the repaired descent rule; the old rule is kept as a `decide` counter-example.  FIFO per sender/receiver pair and the fallback/default-route rules are covered by "
          'correspondence, not by a theorem.'}
